@@ -291,9 +291,10 @@ Definition no_single (units : N -> list N) (cpath : list node) : bool :=
      d        dictionary view          t, m2o   modified text and its byte map to the original
      cp       the C-mode path as (char begin, char end, word id)
      ic       C-mode tokens as reported     ia, ib   A / B tokenisation as reported (None = panic)
+     iu       the (A, B) unit lists stored with every C token as WordInfo reports them (already re-stamped)
      sa, sb   split_into(A / B) of every C token as reported *)
 Definition check_case (d : list dentry) (t m2o : list N) (cp : list (N * N * N))
-           (ic : list otoken) (ia ib : option (list otoken))
+           (ic : list otoken) (iu : list (list N * list N)) (ia ib : option (list otoken))
            (sa sb : list (option (bool * list otoken))) : bool :=
   let hw := d_hw d in
   let ua := d_units true d in
@@ -301,6 +302,7 @@ Definition check_case (d : list dentry) (t m2o : list N) (cp : list (N * N * N))
   let cpath := map (fun x => let '(cb, ce, w) := x in mk_cnode t cb ce w) cp in
   (* model = implementation *)
   same_tokens (Some cpath) t m2o (Some ic) &&
+  list_eqb (pair_eqb (list_eqb N.eqb) (list_eqb N.eqb)) (map (fun n => (ua (wid n), ub (wid n))) cpath) iu &&
   same_tokens (tokenize_mode hw t ua ub ModeA cpath) t m2o ia &&
   same_tokens (tokenize_mode hw t ua ub ModeB cpath) t m2o ib &&
   (N.of_nat (length sa) =? N.of_nat (length cpath)) && (N.of_nat (length sb) =? N.of_nat (length cpath)) &&
